@@ -79,7 +79,7 @@ def judge (ts : Syntax) (deflated : Bool) (strat : Strategy) (tree : Elems) (o :
         | none =>
           match model with
           | .ok mb => if mb = bs then .ok kind else .error s!"MODEL-DIFF call={label} model={hexOf mb} impl={hexOf bs}"
-          | .error _ => .error s!"MODEL-DIFF call={label} model=err impl=ok"
+          | .error _ => if treeNonAscii tree then .ok kind else .error s!"MODEL-DIFF call={label} model=err impl=ok"
 
 def parseOp (ts : Syntax) (e : Enc) (op : String) (arg : Option String) : Option (Except WErr Enc) :=
   match op.splitOn ":" with
